@@ -29,11 +29,16 @@ def _kind(v):
 
 
 def shape_of_value(v):
-    if isinstance(v, tuple):
+    if isinstance(v, tuple) and type(v) is tuple:
         return ('tuple', tuple(shape_of_value(x) for x in v))
     k = _kind(v)
     if k is None:
-        raise Unsupported('element of a symbolic mutable list must be int/bool/str or a tuple of these: %r' % (v,))
+        d = getattr(v, '__dict__', None)
+        if isinstance(d, dict) and not isinstance(v, (Sym, type)) and type(v).__module__ != 'builtins':
+            # a plain data object: an instance whose attributes are scalars (or such objects)
+            return ('inst', type(v), tuple((a, shape_of_value(d[a])) for a in sorted(d)))
+        raise Unsupported('element of a symbolic mutable list must be int/bool/str, a tuple of these or a plain '
+                          'data object: %r' % (v,))
     return (k,)
 
 
@@ -42,18 +47,22 @@ def _paths(shape, path=()):
         for i, s in enumerate(shape[1]):
             for p in _paths(s, path + (i,)):
                 yield p
+    elif shape[0] == 'inst':
+        for a, s in shape[2]:
+            for p in _paths(s, path + (a,)):
+                yield p
     else:
         yield path, shape[0]
 
 
 def _leaf(v, path):
     for i in path:
-        v = v[i]
+        v = v[i] if isinstance(i, int) else v.__dict__[i]
     return v
 
 
 class MList(SList):
-    __slots__ = ('shape', 'arrs')
+    __slots__ = ('shape', 'arrs', 'base_empty', 'base_len', 'tail', 'base_measures', 'version')
 
     def __init__(self, interp, uid, shape, length=None, fresh=True):
         SList.__init__(self, length if length is not None else z3.IntVal(0), None, uid)
@@ -61,12 +70,19 @@ class MList(SList):
         self.arrs = {}
         self.immutable = False
         self.elem = self._elem
+        # measures (left folds, see pyvc.api.Measure): the list is `base` followed by the items of `tail`;
+        # the base is the empty list (created empty) or an arbitrary list whose measure values are unknown
+        self.base_empty = length is None
+        self.base_len = self.length
+        self.tail = []
+        self.base_measures = {}
+        self.version = 0
         if shape is not None:
             self._fresh_arrays(interp, uid)
 
     def _fresh_arrays(self, interp, base):
         for path, kind in _paths(self.shape):
-            name = interp.st.fresh_name('%s%s' % (base, ''.join('.%d' % i for i in path)))
+            name = interp.st.fresh_name('%s%s' % (base, ''.join('.%s' % (i,) for i in path)))
             self.arrs[path] = z3.Array(name, z3.IntSort(), _SORT[kind]())
 
     def _elem(self, interp, idx):
@@ -76,6 +92,11 @@ class MList(SList):
         def load(shape, path):
             if shape[0] == 'tuple':
                 return tuple(load(s, path + (i,)) for i, s in enumerate(shape[1]))
+            if shape[0] == 'inst':
+                o = object.__new__(shape[1])
+                for a, s in shape[2]:
+                    object.__setattr__(o, a, load(s, path + (a,)))
+                return o
             return wrap(z3.Select(self.arrs[path], idx))
 
         return load(self.shape, ())
@@ -89,11 +110,20 @@ class MList(SList):
             raise Unsupported('symbolic list holds elements of different shapes: %r / %r' % (self.shape, sh))
 
     # ---- mutation -------------------------------------------------------------
+    def new_base(self):
+        """the contents changed in a way measures do not follow: their values become unknown"""
+        self.base_empty = False
+        self.base_len = self.length
+        self.tail = []
+        self.base_measures = {}
+        self.version += 1
+
     def havoc(self, interp, tag):
         self.cache = {}
         n = interp.st.fresh_int('%s.len@%s' % (self.uid, tag))
         interp.st.assume(n >= 0)
         self.length = n
+        self.new_base()
         if self.shape is not None:
             self.arrs = {}
             self._fresh_arrays(interp, '%s@%s' % (self.uid, tag))
@@ -106,6 +136,7 @@ class MList(SList):
         for path, kind in _paths(self.shape):
             self.arrs[path] = z3.Store(self.arrs[path], self.length, to_z3(_leaf(v, path)))
         self.length = z3.simplify(self.length + 1)
+        self.tail.append(v)
 
     def insert(self, interp, pos, v):
         if not (isinstance(pos, int) and pos == 0):
@@ -117,6 +148,7 @@ class MList(SList):
             a = self.arrs[path]
             self.arrs[path] = z3.Lambda([k], z3.If(k == 0, to_z3(_leaf(v, path)), z3.Select(a, k - 1)))
         self.length = z3.simplify(self.length + 1)
+        self.new_base()
 
     def pop(self, interp, pos=-1):
         st = interp.st
@@ -127,6 +159,7 @@ class MList(SList):
             v = self._elem(interp, z3.simplify(self.length - 1))
             self.length = z3.simplify(self.length - 1)
             self.cache = {}
+            self.new_base()
             return v
         if isinstance(pos, int) and pos == 0:
             v = self._elem(interp, z3.IntVal(0))
@@ -141,6 +174,7 @@ class MList(SList):
             a = self.arrs[path]
             self.arrs[path] = z3.Lambda([k], z3.Select(a, k + 1))
         self.length = z3.simplify(self.length - 1)
+        self.new_base()
 
     def extend(self, interp, other):
         if isinstance(other, (list, tuple)):
@@ -164,6 +198,7 @@ class MList(SList):
                 self.arrs[path] = z3.Lambda([k], z3.If(k < n, z3.Select(a, k), to_z3(_leaf(sample, path))))
             self.length = z3.simplify(n + other.length)
             self.cache = {}
+            self.new_base()
             return
         for x in interp.iterate(other):
             self.append(interp, x)
@@ -181,11 +216,14 @@ class MList(SList):
         self.cache = {}
         for path, kind in _paths(self.shape):
             self.arrs[path] = z3.Store(self.arrs[path], t, to_z3(_leaf(v, path)))
+        self.new_base()
 
     def copy(self, interp):
         c = MList(interp, interp.st.fresh_name(self.uid + '.copy'), None, self.length)
         c.shape = self.shape
         c.arrs = dict(self.arrs)
+        c.base_empty, c.base_len, c.tail = self.base_empty, self.base_len, list(self.tail)
+        c.base_measures = self.base_measures      # shared: same base, same (lazily created) values
         return c
 
 
@@ -203,6 +241,8 @@ def method(interp, xs, name, args, kwargs):
     if name == 'clear':
         xs.length = z3.IntVal(0)
         xs.cache = {}
+        xs.new_base()
+        xs.base_empty = True
         return None
     return None
 
@@ -212,3 +252,70 @@ def from_concrete(interp, values, uid='list'):
     for v in values:
         m.append(interp, v)
     return m
+
+
+# ------------------------------------------------------------------------------ measures (left folds)
+
+def _param_key(params):
+    out = []
+    for a in params:
+        if isinstance(a, (Sym, int, str, bool)) and not isinstance(a, (SOpt, SChoice, SList)):
+            out.append(z3.simplify(to_z3(a)).sexpr())
+        else:
+            out.append('id%d' % id(a))
+    return tuple(out)
+
+
+def apply_measure(interp, m, args):
+    """h(xs, *params) for a pyvc.api.Measure h:  h([]) == init,  h(xs + [x]) == step(h(xs), x, *params).
+    On a list built by the code the fold is computed; on a symbolic mutable list it is computed from the
+    (unknown, but fixed) value on the list as it was at the last havoc and the items appended since."""
+    if not args:
+        raise Unsupported('measure %s called without a list' % m.name)
+    xs = args[0]
+    params = list(args[1:])
+    if isinstance(xs, (SOpt, SChoice)):
+        xs = interp.resolve(xs)
+    if isinstance(xs, (list, tuple)):
+        acc = m.init
+        for x in xs:
+            acc = interp.call(m.step, [acc, x] + params, {})
+        return acc
+    if isinstance(xs, MList):
+        if xs.base_empty:
+            acc = m.init
+        else:
+            key = (m.name, _param_key(params))
+            if key not in xs.base_measures:
+                xs.base_measures[key] = m.shape.make(interp, '%s(%s#%d)' % (m.name, xs.uid, xs.version))
+            acc = xs.base_measures[key]
+        for x in xs.tail:
+            acc = interp.call(m.step, [acc, x] + params, {})
+        return acc
+    raise Unsupported('measure %s of %r (only lists built by the code and MListOf lists)' % (m.name, type(xs).__name__))
+
+
+def join(interp, sep, xs):
+    """sep.join(xs) for a symbolic mutable list of strings: a left fold like a measure"""
+    st = interp.st
+    if xs.shape is not None and xs.shape != ('str',):
+        from .interp import PyRaise
+        raise PyRaise(TypeError('sequence item: expected str instance'))
+    sep_t = to_z3(sep)
+    if xs.base_empty:
+        acc = z3.StringVal('')
+        empty = z3.BoolVal(True)
+    else:
+        key = ('str.join', _param_key([sep]))
+        if key not in xs.base_measures:
+            j = st.fresh_str('join(%s#%d)' % (xs.uid, xs.version))
+            st.assume(z3.Implies(xs.base_len == 0, j == z3.StringVal('')))
+            xs.base_measures[key] = j
+        acc = xs.base_measures[key]
+        empty = xs.base_len == 0
+    from . import strings
+    for x in xs.tail:
+        with_sep = strings.concat(interp, strings.concat(interp, wrap(acc), sep), x)
+        acc = z3.simplify(z3.If(empty, to_z3(x), to_z3(with_sep)))
+        empty = z3.BoolVal(False)
+    return wrap(acc)
